@@ -131,6 +131,18 @@ def run_fit(case):
     except AssertionError:
         out["base"] = "assert"
     # ---- the carver --------------------------------------------------------------------------
+    if case.get("primer"):
+        # another carver fitted FIRST in the same process on the same sample with a larger max_n_mod: nothing
+        # it computes may be carried over to the carver under test (module-level caches, shared objects)
+        try:
+            primer = build_carver(dict(case, max_n_mod=case["max_n_mod"] + 2))
+            if has_dev:
+                primer.fit(mk_frame(case["X"], index=ik), mk_target(case["y"], ik),
+                           X_dev=mk_frame(case["Xdev"], index=ik), y_dev=mk_target(case["ydev"], ik))
+            else:
+                primer.fit(mk_frame(case["X"], index=ik), mk_target(case["y"], ik))
+        except Exception:  # noqa: BLE001  (the primer's own outcome is not under test)
+            pass
     try:
         carver = build_carver(case)
         if has_dev:
@@ -239,6 +251,7 @@ def gen_case(rng, kind=None):
             "output_dtype": rng.choice(["float", "str"]), "X": encs(col), "y": y, "kind": kind,
             "order": encs(vals) if ftype == "ordinal" else None, "Xdev": None, "ydev": None,
             "index": rng.choice([None, None, "offset", "perm", "str"])}
+    case["primer"] = rng.random() < 0.25
     # rarely used keyword arguments: custom sentinels, verbose printing of the crosstabs
     r = rng.random()
     if r < 0.3:
